@@ -354,10 +354,14 @@ func (c Cap) AddCap(other Cap) Cap {
 		return c
 	}
 
-	// We round up the distance to ensure that the cap is actually contained.
-	// TODO(roberts): Do some error analysis in order to guarantee this.
+	// We round up the distance to ensure that every point other contains is
+	// contained, as decided by ContainsPoint (i.e. with measured distances).
+	// Three measured point-to-point distances are involved (between the two
+	// centers, from other's center to the point, from our center to the point),
+	// each of which can be off by MaxPointError, and the sum computed by Add is
+	// within 2.5 * dblEpsilon (5 rounding errors) of the true sum.
 	dist := ChordAngleBetweenPoints(c.center, other.center).Add(other.radius)
-	if newRad := dist.Expanded(dblEpsilon * float64(dist)); newRad > c.radius {
+	if newRad := dist.Expanded(3*dist.MaxPointError() + 2.5*dblEpsilon*float64(dist)); newRad > c.radius {
 		c.radius = newRad
 	}
 	return c
